@@ -335,8 +335,8 @@ GENS = {
                   exhaustive=True),
     "codes-exhaustive": Gen(case_codes_exhaustive, 65, 65, exhaustive=True),
     "codes-pow2": Gen(case_codes_pow2, 61, 61, exhaustive=True),
-    "codes-random": Gen(case_codes_random, 600, 60000),
-    "biterrors": Gen(case_biterrors, 1200, 120000),
+    "codes-random": Gen(case_codes_random, 600, 400000),
+    "biterrors": Gen(case_biterrors, 1200, 800000),
 }
 MIN_EVALS = {"gray-neighbours": 1000, "gray-inverse": 60000,
              "gray-inverse2": 60000, "gray-adjacent": 60000,
